@@ -283,7 +283,9 @@ def check_chain(names, rng, res: CaseResult):
             consumer = None
         got = {n for n in chain.tasks if n != 'zz_consumer' and not n.endswith('zz_short')}
         if got != set(names):
-            res.inconclusive.append(f'chain task names {sorted(got)} differ from intended {sorted(names)}')
+            # the classes and namespaces given to the chain have exactly the full names `names`
+            res.violate(f'a chain built from tasks whose full names are {sorted(names)} (plus dependants naming them) exposes the task names {sorted(got)}',
+                        witness={'names': names, 'via': 'chain.tasks'})
             return
         full = [n for n in chain.tasks if not n.endswith('zz_short')]
         ids = {}
